@@ -78,6 +78,28 @@ Proof.
   rewrite exec_unblind_blind by assumption. unfold mulm. apply N.mod_mod. lia.
 Qed.
 
+(** C11 at the executed arithmetic: removing the blind beta from the evaluation k * (beta * x) leaves k * x, so two
+    blinds give the same unblinded evaluation *)
+Lemma exec_voprf_unblind q x k beta : prime (Z.of_N q) -> beta mod q <> 0 ->
+  mulm q (invm q beta) (mulm q k (mulm q beta x)) = mulm q k x.
+Proof. intros Hp Hb. apply exec_index_exponent; assumption. Qed.
+
+Lemma exec_voprf_blind_independent q x k b1 b2 : prime (Z.of_N q) -> b1 mod q <> 0 -> b2 mod q <> 0 ->
+  mulm q (invm q b1) (mulm q k (mulm q b1 x)) = mulm q (invm q b2) (mulm q k (mulm q b2 x)).
+Proof. intros Hp H1 H2. now rewrite !exec_voprf_unblind. Qed.
+
+(** C08: the attester's KDF inputs, computed with the executed arithmetic and ANY encoding of exponents as points, are the
+    closed form's for every non-zero request blind; hence the executed [compute_index] (the Coq HKDF) agrees *)
+Lemma exec_index_closed_form q (enc : N -> list Byte.byte) d bc bo : prime (Z.of_N q) -> bc mod q <> 0 ->
+  compute_index (enc (d mod q)) (enc (mulm q (invm q bc) (mulm q bo (mulm q bc d)))) =
+  compute_index (enc (d mod q)) (enc (mulm q bo d)).
+Proof. intros Hp Hb. now rewrite exec_index_exponent. Qed.
+
+Lemma exec_index_stable q (enc : N -> list Byte.byte) d bo bc bc' : prime (Z.of_N q) -> bc mod q <> 0 -> bc' mod q <> 0 ->
+  compute_index (enc (d mod q)) (enc (mulm q (invm q bc) (mulm q bo (mulm q bc d)))) =
+  compute_index (enc (d mod q)) (enc (mulm q (invm q bc') (mulm q bo (mulm q bc' d)))).
+Proof. intros Hp H1 H2. now rewrite !exec_index_exponent. Qed.
+
 (** the abstract field of Layer B is inhabited by the executable structure of Base/Zq.v for every prime *)
 Definition zq_instance (q : Z) (Hq : prime q) :
   field_theory (z0 q Hq) (z1 q Hq) (zadd q Hq) (zmul q Hq) (zsub q Hq) (zopp q Hq) (zdiv q Hq) (zinv q Hq) (@eq (zq q)) :=
